@@ -26,8 +26,9 @@ def tokenize (cs : List Char) : List String :=
       else go rest (c :: cur) acc
   go cs [] []
 
-def atom (t : String) : Val :=
-  if !t.isEmpty && t.all Char.isDigit then .n t.toNat! else .s t
+/-- atoms stay text (a hex string made of decimal digits must keep its leading zeros);
+`Val.nat?` reads a decimal number on demand -/
+def atom (t : String) : Val := .s t
 
 /-- parse one value from the token stream; fuel = number of tokens -/
 partial def parseVal : List String → Option (Val × List String)
@@ -76,6 +77,7 @@ def Req.get? (r : Req) (k : String) : Option Val := (r.args.find? (·.1 == k)).m
 
 def Val.nat? : Val → Option Nat
   | .n k => some k
+  | .s t => if !t.isEmpty && t.all Char.isDigit then some t.toNat! else none
   | _ => none
 
 def Val.str? : Val → Option String
